@@ -162,7 +162,7 @@ def run(pid, tier, seed):
             fault = re.sub(r"[-+]?\d{4,}", "N", fault)
             if zn in ancient:
                 fault = "ancient-dst-zone"
-                if not e.get("ub") and e["e"] in ("Make", "Convert", "RT2") and "cs" in e and zone.from_limbs(e["cs"][0]) > 2038:
+                if not e.get("ub") and e["e"] in ("Make", "Convert") and "cs" in e and zone.from_limbs(e["cs"][0]) > 2038:
                     fault = "ancient-dst-zone:civil-year-after-2038"      # not part of the listed finding
                 if e.get("ub") and not tzgen.ancient_negative_last_year(open(dict(cases)[zn], "rb").read()):
                     fault = "ancient-dst-zone:last-year-not-negative"     # the listed overflow needs a negative last_year_
